@@ -4,6 +4,7 @@ import (
 	"bufio"
 	"encoding/json"
 	"fmt"
+	"io"
 	"os"
 	"os/exec"
 	"runtime"
@@ -55,7 +56,16 @@ type Stats struct {
 	Counters     map[string]int64 `json:"counters,omitempty"`
 	Sample       []string         `json:"sample,omitempty"`
 	SamplePrefix []int            `json:"sample_prefix,omitempty"`
+	// Recycle: the worker's heap grew past RecycleHeap (the code under test keeps process-global
+	// state, e.g. go-metrics' meter arbiter); it exits after this result and Rest is the unexplored
+	// part of its depth-first stack, to be continued by a fresh process
+	Recycle  bool   `json:"recycle,omitempty"`
+	Rest     []item `json:"rest,omitempty"`
+	Recycled int64  `json:"recycled,omitempty"`
 }
+
+// RecycleHeap is the live-heap size at which a worker process hands its remaining work back.
+var RecycleHeap uint64 = 1 << 30
 
 func (s *Stats) merge(o *Stats) {
 	s.Executions += o.Executions
@@ -84,6 +94,7 @@ func (s *Stats) merge(o *Stats) {
 	}
 	s.Violations = append(s.Violations, o.Violations...)
 	s.Capped = s.Capped || o.Capped
+	s.Recycled += o.Recycled
 	if o.Infra != "" && s.Infra == "" {
 		s.Infra = o.Infra
 	}
@@ -95,6 +106,7 @@ type item struct {
 	Cost   int    `json:"c"`
 	Scn    string `json:"s,omitempty"`
 	Whole  bool   `json:"whole,omitempty"`
+	Stack  []item `json:"stack,omitempty"` // continue a depth-first search from this stack (top is last)
 }
 
 type explorer struct {
@@ -103,6 +115,7 @@ type explorer struct {
 	stats    Stats
 	recheck  int
 	maxViol  int
+	worker   bool
 }
 
 func altCost(model CostModel, pt *Point, alt int) int {
@@ -208,11 +221,22 @@ func (e *explorer) stopNow() bool {
 }
 
 // dfs explores the whole subtree below it.
-func (e *explorer) dfs(root item) {
-	stack := []item{root}
+func (e *explorer) dfs(root item) { e.dfsStack([]item{root}) }
+
+func (e *explorer) dfsStack(stack []item) {
+	var ms runtime.MemStats
 	for len(stack) > 0 {
 		if e.stopNow() {
 			return
+		}
+		if e.worker && e.stats.Executions%128 == 127 {
+			if runtime.ReadMemStats(&ms); ms.HeapAlloc > RecycleHeap {
+				runtime.GC()
+				if runtime.ReadMemStats(&ms); ms.HeapAlloc > RecycleHeap*3/4 {
+					e.stats.Recycle, e.stats.Rest, e.stats.Recycled = true, stack, 1
+					return
+				}
+			}
 		}
 		it := stack[len(stack)-1]
 		stack = stack[:len(stack)-1]
@@ -275,26 +299,22 @@ func Explore(scn *Scenario, o ExploreOpts) *Stats {
 	var mu sync.Mutex
 	next := 0
 	stop := false
+	busy := 0
 	var wg sync.WaitGroup
 	for k := 0; k < o.Workers; k++ {
 		wg.Add(1)
 		go func() {
 			defer wg.Done()
-			cmd := exec.Command(os.Args[0], os.Args[1:]...)
-			cmd.Env = append(os.Environ(), "VRT_WORKER=1", fmt.Sprintf("VRT_DEADLINE=%d", o.Deadline.Unix()), fmt.Sprintf("VRT_RECHECK=%d", o.Recheck), fmt.Sprintf("VRT_MAXVIOL=%d", o.MaxViol), "GOMAXPROCS=1", "GOGC="+envOr("VRT_WORKER_GOGC", "400"), "GODEBUG="+envOr("VRT_WORKER_GODEBUG", ""))
-			cmd.Stderr = os.Stderr
-			in, _ := cmd.StdinPipe()
-			out, _ := cmd.StdoutPipe()
-			if err := cmd.Start(); err != nil {
-				mu.Lock()
-				e.stats.Infra = "worker start: " + err.Error()
-				mu.Unlock()
-				return
-			}
-			rd := bufio.NewReaderSize(out, 1<<20)
-			enc := json.NewEncoder(in)
+			var p *proc
+			defer func() { p.close() }()
 			for {
 				mu.Lock()
+				for !stop && next >= len(queue) && busy > 0 {
+					// another worker may still hand back the rest of its stack
+					mu.Unlock()
+					time.Sleep(20 * time.Millisecond)
+					mu.Lock()
+				}
 				if stop || next >= len(queue) {
 					mu.Unlock()
 					break
@@ -302,42 +322,41 @@ func Explore(scn *Scenario, o ExploreOpts) *Stats {
 				it := queue[next]
 				it.Scn = scn.Name
 				next++
+				busy++
 				mu.Unlock()
-				if err := enc.Encode(it); err != nil {
-					mu.Lock()
-					e.stats.Infra = "worker write: " + err.Error()
-					stop = true
-					mu.Unlock()
-					break
+				if p == nil {
+					var err error
+					if p, err = startProc(o); err != nil {
+						mu.Lock()
+						e.stats.Infra, stop = "worker start: "+err.Error(), true
+						busy--
+						mu.Unlock()
+						break
+					}
 				}
-				line, err := rd.ReadBytes('\n')
-				if err != nil {
-					mu.Lock()
-					e.stats.Infra = "worker died: " + err.Error()
-					stop = true
-					mu.Unlock()
-					break
-				}
-				var st Stats
-				if err := json.Unmarshal(line, &st); err != nil {
-					mu.Lock()
-					e.stats.Infra = "worker output: " + err.Error() + ": " + string(line)
-					stop = true
-					mu.Unlock()
-					break
-				}
+				st, err := p.roundtrip(it)
 				mu.Lock()
-				e.stats.merge(&st)
+				busy--
+				if err != nil {
+					e.stats.Infra, stop = "worker died: "+err.Error(), true
+					mu.Unlock()
+					break
+				}
+				e.stats.merge(st)
+				if st.Recycle {
+					if len(st.Rest) > 0 {
+						queue = append(queue, item{Stack: st.Rest})
+					}
+				}
 				if e.stats.Infra != "" || len(e.stats.Violations) >= e.maxViol || st.Capped || st.Fatal {
 					stop = true
 				}
 				mu.Unlock()
-				if st.Fatal {
-					break
+				if st.Fatal || st.Recycle {
+					p.close()
+					p = nil
 				}
 			}
-			in.Close()
-			cmd.Wait()
 		}()
 	}
 	wg.Wait()
@@ -400,6 +419,10 @@ func ServeWorker(scenarios func(name string) *Scenario) {
 	if maxViol <= 0 {
 		maxViol = 3
 	}
+	var mb uint64
+	if fmt.Sscanf(os.Getenv("VRT_RECYCLE_MB"), "%d", &mb); mb > 0 {
+		RecycleHeap = mb << 20
+	}
 	rd := bufio.NewReaderSize(os.Stdin, 1<<20)
 	// results go to the original stdout; anything the code under test prints
 	// to os.Stdout afterwards is discarded so it cannot corrupt the protocol
@@ -422,7 +445,7 @@ func ServeWorker(scenarios func(name string) *Scenario) {
 			fmt.Fprintf(os.Stderr, "worker: unknown scenario %q\n", it.Scn)
 			os.Exit(2)
 		}
-		e := &explorer{scn: scn, deadline: dl, recheck: recheck, maxViol: maxViol}
+		e := &explorer{scn: scn, deadline: dl, recheck: recheck, maxViol: maxViol, worker: true}
 		OnStuck = func(reason string, choices []int) {
 			e.stats.Violations = append(e.stats.Violations, Violation{Scenario: scn.Name, Prefix: choices, Msg: reason + "\n(the schedule prefix reaches the point where the code stopped responding)", Outcome: "stuck"})
 			e.stats.Fatal = true
@@ -432,17 +455,69 @@ func ServeWorker(scenarios func(name string) *Scenario) {
 			out.WriteByte('\n')
 			out.Flush()
 		}
-		if it.Whole {
+		switch {
+		case len(it.Stack) > 0:
+			e.dfsStack(it.Stack)
+		case it.Whole:
 			e.dfs(item{})
-			e.sample()
-		} else {
+		default:
 			e.dfs(it)
+		}
+		if it.Whole && !e.stats.Recycle {
+			e.sample()
 		}
 		b, _ := json.Marshal(&e.stats)
 		out.Write(b)
 		out.WriteByte('\n')
 		out.Flush()
+		if e.stats.Recycle {
+			os.Exit(0)
+		}
 	}
+}
+
+// proc is one worker process.
+type proc struct {
+	cmd *exec.Cmd
+	in  io.WriteCloser
+	rd  *bufio.Reader
+	enc *json.Encoder
+}
+
+func startProc(o ExploreOpts) (*proc, error) {
+	cmd := exec.Command(os.Args[0], os.Args[1:]...)
+	cmd.Env = append(os.Environ(), "VRT_WORKER=1", fmt.Sprintf("VRT_DEADLINE=%d", o.Deadline.Unix()), fmt.Sprintf("VRT_RECHECK=%d", o.Recheck), fmt.Sprintf("VRT_MAXVIOL=%d", o.MaxViol), "GOMAXPROCS=1", "GOGC="+envOr("VRT_WORKER_GOGC", "400"), "GOMEMLIMIT="+envOr("VRT_WORKER_MEMLIMIT", "2500MiB"), "GODEBUG="+envOr("VRT_WORKER_GODEBUG", ""))
+	cmd.Stderr = os.Stderr
+	in, _ := cmd.StdinPipe()
+	out, _ := cmd.StdoutPipe()
+	if err := cmd.Start(); err != nil {
+		return nil, err
+	}
+	return &proc{cmd: cmd, in: in, rd: bufio.NewReaderSize(out, 1<<20), enc: json.NewEncoder(in)}, nil
+}
+
+func (p *proc) roundtrip(it item) (*Stats, error) {
+	if err := p.enc.Encode(it); err != nil {
+		return nil, err
+	}
+	line, err := p.rd.ReadBytes('\n')
+	if err != nil {
+		return nil, err
+	}
+	var st Stats
+	if err := json.Unmarshal(line, &st); err != nil {
+		return nil, fmt.Errorf("%v: %.200s", err, line)
+	}
+	return &st, nil
+}
+
+func (p *proc) close() {
+	if p == nil || p.cmd == nil {
+		return
+	}
+	p.in.Close()
+	p.cmd.Wait()
+	p.cmd = nil
 }
 
 // ExploreMany explores whole scenarios in parallel worker processes (one
@@ -461,19 +536,8 @@ func ExploreMany(scns []*Scenario, o ExploreOpts) ([]*Stats, string) {
 		wg.Add(1)
 		go func() {
 			defer wg.Done()
-			cmd := exec.Command(os.Args[0], os.Args[1:]...)
-			cmd.Env = append(os.Environ(), "VRT_WORKER=1", fmt.Sprintf("VRT_DEADLINE=%d", o.Deadline.Unix()), fmt.Sprintf("VRT_RECHECK=%d", o.Recheck), fmt.Sprintf("VRT_MAXVIOL=%d", o.MaxViol), "GOMAXPROCS=1", "GOGC="+envOr("VRT_WORKER_GOGC", "400"), "GODEBUG="+envOr("VRT_WORKER_GODEBUG", ""))
-			cmd.Stderr = os.Stderr
-			in, _ := cmd.StdinPipe()
-			outp, _ := cmd.StdoutPipe()
-			if err := cmd.Start(); err != nil {
-				mu.Lock()
-				infra = "worker start: " + err.Error()
-				mu.Unlock()
-				return
-			}
-			rd := bufio.NewReaderSize(outp, 1<<20)
-			enc := json.NewEncoder(in)
+			var p *proc
+			defer func() { p.close() }()
 			for {
 				mu.Lock()
 				if infra != "" || next >= len(scns) || (!o.Deadline.IsZero() && time.Now().After(o.Deadline)) {
@@ -483,28 +547,41 @@ func ExploreMany(scns []*Scenario, o ExploreOpts) ([]*Stats, string) {
 				i := next
 				next++
 				mu.Unlock()
-				enc.Encode(item{Scn: scns[i].Name, Whole: true})
-				line, err := rd.ReadBytes('\n')
-				var st Stats
-				if err == nil {
-					err = json.Unmarshal(line, &st)
+				req := item{Scn: scns[i].Name, Whole: true}
+				total := &Stats{}
+				for {
+					var st *Stats
+					var err error
+					if p == nil {
+						p, err = startProc(o)
+					}
+					if err == nil {
+						st, err = p.roundtrip(req)
+					}
+					if err != nil {
+						mu.Lock()
+						infra = fmt.Sprintf("worker failed on scenario %q: %v", scns[i].Name, err)
+						mu.Unlock()
+						return
+					}
+					total.merge(st)
+					total.Sample, total.Fatal = st.Sample, st.Fatal
+					if st.Fatal || st.Recycle {
+						p.close() // the worker has exited
+						p = nil
+					}
+					if !st.Recycle || len(st.Rest) == 0 || total.Infra != "" || len(total.Violations) >= o.MaxViol && o.MaxViol > 0 {
+						break
+					}
+					req = item{Scn: scns[i].Name, Whole: true, Stack: st.Rest}
 				}
 				mu.Lock()
-				if err != nil {
-					infra = fmt.Sprintf("worker failed on scenario %q: %v", scns[i].Name, err)
-				} else {
-					res[i] = &st
-					if st.Infra != "" {
-						infra = st.Infra
-					}
+				res[i] = total
+				if total.Infra != "" {
+					infra = total.Infra
 				}
 				mu.Unlock()
-				if st.Fatal {
-					break // the worker has exited; the remaining scenarios go to the other workers
-				}
 			}
-			in.Close()
-			cmd.Wait()
 		}()
 	}
 	wg.Wait()
